@@ -72,6 +72,7 @@ type AnnoOpts struct {
 	Isoforms     bool // allow a second CDS with the same name, outer bounds and strand but another exon junction
 	SamConflicts bool // (SAM form) allow an extra supplementary record whose bases may disagree with the others
 	NoStop       bool // allow CDS features that do not end in a stop codon (partial CDS, polyprotein fragments)
+	DupOverlap   bool // a shorter second feature with the name, start and frame of an existing one (needs NoStop)
 	QuoteNames   bool // (used by the case builder) a GFF3 feature name may be written with double quotes around it
 	DupNames     bool // allow two single-row CDS that share a gene name, and top-level GFF3 rows without an ID
 	ExactQueries int  // if > 0, the number of query sequences (FASTA form)
@@ -182,6 +183,31 @@ func MakeAnnotation(r *fw.Rng, L int, o AnnoOpts) Annotation {
 			if a != b {
 				an.Feats[b].Name = an.Feats[a].Name
 			}
+		}
+	}
+	if o.DupOverlap && r.Chance(0.35) {
+		// a second, shorter product of the same gene: same name, start and frame, ending earlier (as
+		// pp1a and pp1ab are both annotated /gene="ORF1ab"). Every change in the shared codons is the
+		// same change for both.
+		var cand []int
+		for i, f := range an.Feats {
+			if f.Kind == "CDS" && f.Name != "" && len(f.Segs) == 1 && f.CodonStart == 1 && f.Segs[0][1]-f.Segs[0][0]+1 >= 12 && !strings.HasSuffix(f.ID, "-iso") {
+				cand = append(cand, i)
+			}
+		}
+		if len(cand) > 0 {
+			a := an.Feats[cand[r.Intn(len(cand))]]
+			b := a
+			b.ID = a.ID + "-short"
+			b.Segs = [][2]int{{a.Segs[0][0], a.Segs[0][1]}}
+			codons := (a.Segs[0][1] - a.Segs[0][0] + 1) / 3
+			cut := 3 * r.Range(1, codons-2)
+			if a.Strand > 0 {
+				b.Segs[0][1] -= cut
+			} else {
+				b.Segs[0][0] += cut
+			}
+			an.Feats = append(an.Feats, b)
 		}
 	}
 	if len(an.Feats) == 0 {
